@@ -485,7 +485,7 @@ def c16():
                       "Segment::from_pmmr exists iff its first leaf is inside the mmr; what it produces validates against the root (validate) and under a merged root (validate_with)",
                       "%d leaves (symbolic contents), segment height %d index %d, non-prunable" % (n, h, idx),
                       env={"VH_NLEAF": n, "VH_SEGH": h, "VH_SEGIDX": idx}, tag="_n%d_h%d_i%d" % (n, h, idx), est=300, loops=HL, allow_unsat=["segment produced"] if idx * (1 << h) >= n else []))
-    for bits, tiers in [(16, "qt"), (24, "t"), (32, "x")]:
+    for bits, tiers in [(16, "qt"), (24, "x"), (32, "x")]:
         obs.append(ob("c16::segment_identifier_arithmetic", tiers, 4,
                       "SegmentIdentifier::{segment_capacity, count_segments_required, pmmr_size, segment_pos_range} equal the closed forms of the MMR definition: capacity 2^h, ceil(leaves/capacity) segments, first position = position of leaf idx*2^h, a full segment ends at the root of its perfect subtree, the partial last segment at the end of the MMR",
                       "every MMR of 1 <= n < 2^%d leaves, every segment height <= 13, every index < 2^20" % bits,
